@@ -125,3 +125,342 @@ def spirv_decls():
             p += 5
         masks[name] = dict(consts=consts, line=toks[i].line)
     return enums, masks
+
+
+# ------------------------------------------------------------------ operand parameter tables (C17, C02, C03)
+def _fn_body(s, name, start=0):
+    t = s.toks
+    for i in range(start, len(t) - 1):
+        if t[i].v == "fn" and t[i + 1].v == name:
+            j = i
+            while t[j].v != "{":
+                j += 1
+            k = match_close(t, j)
+            return t[j + 1:k], i
+    raise ShapeError("fn %s not found in %s" % (name, s.path))
+
+
+def _split_top(toks, sep):
+    out, cur, depth = [], [], 0
+    for t in toks:
+        if t.k == "p":
+            if t.v in "([{":
+                depth += 1
+            elif t.v in ")]}":
+                depth -= 1
+            elif t.v == sep and depth == 0:
+                out.append(cur)
+                cur = []
+                continue
+        cur.append(t)
+    if cur:
+        out.append(cur)
+    return out
+
+
+def _operand_ctor_list(toks):
+    """`vec![dr::Operand::V(self.decoder.m()?), ...]` -> [(V, m)]"""
+    vals = [t.v for t in toks]
+    if vals[:3] != ["vec!", "["] and not (vals[0] == "vec!" and vals[1] == "["):
+        raise ShapeError("expected vec![..] at line %d: %s" % (toks[0].line, " ".join(vals[:8])))
+    c = match_close(toks, 1)
+    if c != len(toks) - 1:
+        raise ShapeError("trailing tokens after vec![..] at line %d" % toks[0].line)
+    out = []
+    for item in split_commas(toks[2:c]):
+        iv = [t.v for t in item]
+        if iv[-2:] == [",", ")"]:
+            iv = iv[:-2] + [")"]
+        # dr :: Operand :: V ( self . decoder . m ( ) ? )
+        if iv[:4] == ["dr", "::", "Operand", "::"] and iv[5] == "(" and iv[6:10] == ["self", ".", "decoder", "."] and iv[11:15] == ["(", ")", "?", ")"] and len(iv) in (15, 16):
+            out.append((iv[4], iv[10]))
+        else:
+            raise ShapeError("operand constructor at line %d: %s" % (item[0].line, " ".join(iv)))
+    return out
+
+
+def _strip_block(toks):
+    if toks and toks[0].v == "{" and match_close(toks, 0) == len(toks) - 1:
+        return toks[1:-1]
+    return toks
+
+
+def parse_operand_arms():
+    """kind -> dict(operands=[(Variant, decoder_method)], args_fn=str|None, panic=bool) from Parser::parse_operand."""
+    s = src("rspirv/binary/autogen_parse_operand.rs")
+    body, _ = _fn_body(s, "parse_operand")
+    vals = [t.v for t in body]
+    mi = vals.index("match")
+    bo = mi + 2
+    bc = match_close(body, bo)
+    out = {}
+    for pat, expr in match_arms(body[bo + 1:bc]):
+        for alt in split_alternatives(pat):
+            av = [t.v for t in alt]
+            if av[:2] != ["GOpKind", "::"] or len(av) != 3:
+                raise ShapeError("parse_operand pattern at line %d" % alt[0].line)
+            kind = av[2]
+            e = _strip_block(expr)
+            ev = [t.v for t in e]
+            if ev[:1] == ["panic!"]:
+                out[kind] = dict(operands=[], args_fn=None, panic=True)
+                continue
+            if ev[0] == "vec!":
+                out[kind] = dict(operands=_operand_ctor_list(e), args_fn=None, panic=False)
+                continue
+            # { let val = self.decoder.m()?; let mut ops = vec![dr::Operand::V(val)]; ops.append(&mut self.parse_x_arguments(val)?); ops }
+            txt = " ".join(ev)
+            import re as _re
+            m = _re.match(r"^let val = self \. decoder \. (\w+) \( \) \? ; let mut ops = vec! \[ dr :: Operand :: (\w+) \( val \) \] ; "
+                          r"ops \. append \( & mut self \. (\w+) \( val \) \? \) ; ops$", txt)
+            if not m:
+                raise ShapeError("parse_operand arm for %s at line %d: %s" % (kind, alt[0].line, txt[:160]))
+            out[kind] = dict(operands=[(m.group(2), m.group(1))], args_fn=m.group(3), panic=False)
+    return out
+
+
+def parse_arguments_tables():
+    """fn name -> dict(kind=K, form='mask'|'enum', entries=[([names], [(Variant, method)])], line)"""
+    s = src("rspirv/binary/autogen_parse_operand.rs")
+    t = s.toks
+    out = {}
+    i = 0
+    while i < len(t) - 1:
+        if t[i].v == "fn" and t[i + 1].k == "id" and t[i + 1].v.startswith("parse_") and t[i + 1].v.endswith("_arguments"):
+            name = t[i + 1].v
+            j = i
+            while t[j].v != "{":
+                j += 1
+            k = match_close(t, j)
+            sig = [x.v for x in t[i:j]]
+            kind = sig[sig.index("spirv") + 2]
+            body = t[j + 1:k]
+            bv = [x.v for x in body]
+            entries = []
+            if bv[:6] == ["let", "mut", "params", "=", "vec!", "["]:
+                # mask form: sequence of `if x.contains(spirv::K::BIT) { params.append(&mut vec![...]); }`
+                p = bv.index(";") + 1
+                while p < len(body) and body[p].v == "if":
+                    o = p
+                    while body[o].v != "{":
+                        o += 1
+                    cond = [x.v for x in body[p + 1:o]]
+                    if not (cond[1:3] == [".", "contains"] and cond[3] == "(" and cond[4:7] == ["spirv", "::", kind] and cond[7] == "::" and cond[9] == ")"):
+                        raise ShapeError("mask argument condition in %s at line %d: %s" % (name, body[p].line, " ".join(cond)))
+                    bit = cond[8]
+                    c = match_close(body, o)
+                    inner = body[o + 1:c]
+                    iv = [x.v for x in inner]
+                    if iv[:6] != ["params", ".", "append", "(", "&", "mut"] or iv[-2:] != [")", ";"]:
+                        raise ShapeError("mask argument body in %s at line %d" % (name, body[o].line))
+                    entries.append(([bit], _operand_ctor_list(inner[6:-2])))
+                    p = c + 1
+                rest = [x.v for x in body[p:]]
+                if rest != ["Ok", "(", "params", ")"]:
+                    raise ShapeError("tail of %s: %s" % (name, " ".join(rest)))
+                form = "mask"
+            else:
+                if bv[:3] != ["Ok", "(", "match"]:
+                    raise ShapeError("shape of %s at line %d" % (name, t[i].line))
+                bo = bv.index("{")
+                bc = match_close(body, bo)
+                for pat, expr in match_arms(body[bo + 1:bc]):
+                    pv = [x.v for x in pat]
+                    if pv == ["_"]:
+                        if [x.v for x in expr] != ["vec!", "[", "]"]:
+                            raise ShapeError("default arm of %s" % name)
+                        continue
+                    names = []
+                    for alt in split_alternatives(pat):
+                        av = [x.v for x in alt]
+                        if av[:4] != ["spirv", "::", kind, "::"] or len(av) != 5:
+                            raise ShapeError("pattern in %s at line %d" % (name, alt[0].line))
+                        names.append(av[4])
+                    entries.append((names, _operand_ctor_list(_strip_block(expr))))
+                form = "enum"
+            out[name] = dict(kind=kind, form=form, entries=entries, line=t[i].line)
+            i = k
+        i += 1
+    return out
+
+
+def _logical_operand_list(toks):
+    """`LogicalOperand { kind: ..::OperandKind::K, quantifier: ..::OperandQuantifier::Q }, ...` -> [(K, Q)]"""
+    out = []
+    for item in split_commas(toks):
+        iv = [t.v for t in item]
+        try:
+            ki = iv.index("OperandKind")
+            qi = iv.index("OperandQuantifier")
+        except ValueError:
+            raise ShapeError("logical operand at line %d: %s" % (item[0].line, " ".join(iv[:12])))
+        if "LogicalOperand" not in iv[:ki]:
+            raise ShapeError("logical operand at line %d" % item[0].line)
+        out.append((iv[ki + 2], iv[qi + 2]))
+    return out
+
+
+def _operand_match_arms(fn_name):
+    s = src("rspirv/dr/autogen_operand.rs")
+    body, _ = _fn_body(s, fn_name)
+    bv = [t.v for t in body]
+    mi = bv.index("match")
+    bo = bv.index("{", mi)
+    bc = match_close(body, bo)
+    res = {}
+    for pat, expr in match_arms(body[bo + 1:bc]):
+        pv = [t.v for t in pat]
+        if pv == ["_"]:
+            res["_"] = expr
+            continue
+        if pv[:2] != ["Self", "::"]:
+            raise ShapeError("%s arm at line %d" % (fn_name, pat[0].line))
+        res[pv[2]] = expr
+    return res
+
+
+def _names_or(toks, kind):
+    """`s::K::A | s::K::B` -> [A, B]"""
+    names = []
+    for alt in split_alternatives(toks):
+        av = [t.v for t in alt]
+        if av and av[-1] == ",":
+            av = av[:-1]
+        if len(av) != 5 or av[0] not in ("s", "spirv") or av[2] != kind:
+            raise ShapeError("enumerant list at line %d: %s" % (alt[0].line, " ".join(av)))
+        names.append(av[4])
+    return names
+
+
+def additional_operands_table():
+    """Operand variant -> dict(form, entries=[([names], [(Kind, Quant)])])"""
+    out = {}
+    for variant, expr in _operand_match_arms("additional_operands").items():
+        if variant == "_":
+            continue
+        ev = [t.v for t in expr]
+        if ev[0] == "match":
+            bo = ev.index("{")
+            bc = match_close(expr, bo)
+            entries = []
+            for pat, e in match_arms(expr[bo + 1:bc]):
+                if [t.v for t in pat] == ["_"]:
+                    continue
+                e = _strip_block(e)
+                if [t.v for t in e[:2]] != ["vec!", "["]:
+                    raise ShapeError("additional_operands arm at line %d" % pat[0].line)
+                c = match_close(e, 1)
+                entries.append((_names_or(pat, variant), _logical_operand_list(e[2:c])))
+            out[variant] = dict(form="enum", entries=entries)
+        else:
+            inner = _strip_block(expr)
+            stmts = _split_top(inner, ";")
+            entries = []
+            for st in stmts:
+                sv = [t.v for t in st]
+                if sv[:5] == ["let", "mut", "result", "=", "vec!"] or sv == ["result"]:
+                    continue
+                if sv[:4] != ["result", ".", "extend", "("]:
+                    raise ShapeError("additional_operands mask statement at line %d: %s" % (st[0].line, " ".join(sv[:8])))
+                # [bits].iter().filter(|arg| v.contains(**arg)).flat_map(|_| { [ops].iter().cloned() })
+                a = 4
+                if st[a].v != "[":
+                    raise ShapeError("additional_operands bits at line %d" % st[a].line)
+                c = match_close(st, a)
+                bits = _names_or([x for y in split_commas(st[a + 1:c]) for x in (y + [st[a]])][:-1] if False else _join_or(split_commas(st[a + 1:c])), variant)
+                rest = " ".join(t.v for t in st[c + 1:c + 40])
+                if not rest.startswith(". iter ( ) . filter ( | arg | v . contains ( * * arg ) ) . flat_map ( | _ |"):
+                    raise ShapeError("additional_operands mask adaptor at line %d: %s" % (st[c].line, rest))
+                # find the inner array
+                k = c + 1
+                while not (st[k].v == "[" and st[k - 1].v in ("{", "|")):
+                    k += 1
+                kc = match_close(st, k)
+                ops = _logical_operand_list(st[k + 1:kc])
+                tail = " ".join(t.v for t in st[kc + 1:])
+                if not tail.startswith(". iter ( ) . cloned ( )"):
+                    raise ShapeError("additional_operands tail at line %d: %s" % (st[kc].line, tail[:60]))
+                entries.append((bits, ops))
+            out[variant] = dict(form="mask", entries=entries)
+    return out
+
+
+def _join_or(items):
+    """list of token lists -> one token list joined by `|` tokens"""
+    from rtok import Tok
+    out = []
+    for k, it in enumerate(items):
+        if k:
+            out.append(Tok("p", "|", it[0].line))
+        out += it
+    return out
+
+
+def required_table(fn_name):
+    """Operand variant -> dict(form, entries=[(method|None, [names], [items])]) for required_capabilities / required_extensions.
+    items: capability names or extension strings."""
+    out = {}
+    for variant, expr in _operand_match_arms(fn_name).items():
+        ev = [t.v for t in expr]
+        if variant == "_" or (ev[:2] == ["vec!", "["] and len(ev) == 3):
+            continue
+        # several variants can share one arm (`Self::A(_) | Self::B(_) => vec![]`) - handled by caller via '_' / empty
+        if ev[0] == "match":
+            bo = ev.index("{")
+            bc = match_close(expr, bo)
+            entries = []
+            for pat, e in match_arms(expr[bo + 1:bc]):
+                if [t.v for t in pat] == ["_"]:
+                    continue
+                e = _strip_block(e)
+                if [t.v for t in e[:2]] != ["vec!", "["]:
+                    raise ShapeError("%s arm at line %d" % (fn_name, pat[0].line))
+                c = match_close(e, 1)
+                entries.append((None, _names_or(pat, variant), _items(e[2:c])))
+            out[variant] = dict(form="enum", entries=entries)
+        elif ev[0] == "{":
+            inner = _strip_block(expr)
+            entries = []
+            for st in _split_top(inner, ";"):
+                sv = [t.v for t in st]
+                if sv[:5] == ["let", "mut", "result", "=", "vec!"] or sv == ["result"]:
+                    continue
+                if sv[:3] != ["if", "v", "."] or sv[3] not in ("intersects", "contains") or sv[4] != "(":
+                    raise ShapeError("%s mask statement at line %d: %s" % (fn_name, st[0].line, " ".join(sv[:8])))
+                c = match_close(st, 4)
+                bits = _names_or([x for x in st[5:c] if not (x.v == "," and x is st[c - 1])], variant)
+                blk = st[c + 1:]
+                bv = [t.v for t in blk]
+                if bv[:7] != ["{", "result", ".", "extend_from_slice", "(", "&", "["]:
+                    raise ShapeError("%s mask body at line %d" % (fn_name, st[c].line))
+                kc = match_close(blk, 6)
+                entries.append((sv[3], bits, _items(blk[7:kc])))
+            out[variant] = dict(form="mask", entries=entries)
+        else:
+            raise ShapeError("%s arm for %s at line %d" % (fn_name, variant, expr[0].line))
+    return out
+
+
+def _items(toks):
+    out = []
+    for it in split_commas(toks):
+        iv = [t.v for t in it]
+        if len(it) == 1 and it[0].k == "str":
+            out.append(str_value(it[0]))
+        elif iv[:4] == ["spirv", "::", "Capability", "::"] and len(iv) == 5:
+            out.append(iv[4])
+        else:
+            raise ShapeError("item at line %d: %s" % (it[0].line, " ".join(iv)))
+    return out
+
+
+def operand_param_tables():
+    """Everything above in JSON-able form (used for the pinned snapshot)."""
+    pa = parse_arguments_tables()
+    return {
+        "parse_operand": {k: {"operands": v["operands"], "args_fn": v["args_fn"], "panic": v["panic"]} for k, v in parse_operand_arms().items()},
+        "parse_arguments": {k: {"kind": v["kind"], "form": v["form"], "entries": v["entries"]} for k, v in pa.items()},
+        "additional_operands": additional_operands_table(),
+        "required_capabilities": required_table("required_capabilities"),
+        "required_extensions": required_table("required_extensions"),
+    }
